@@ -119,10 +119,10 @@ def run_seam_case(st, keep_log=False):
         if not np.array_equal(np.asarray(signal, dtype=float), pristine):
             raise Violation("C15/input-modified", key, f"noise modified its input signal ({case})")
         res.stats["seam-reached" if seam.reached else "seam-not-reached"] += 1
-        if seam.reached:
-            if len(seam.calls) != 1:
-                raise Violation("C15/not-one-gaussian-term", key,
-                                f"{len(seam.calls)} Gaussian draws were made for one noise call ({case})")
+        if len(seam.calls) > 1:
+            # several draws combined in a way the seam cannot attribute: only the black-box mode judges
+            res.stats["seam-multiple-draws-not-judged"] += 1
+        if len(seam.calls) == 1:
             c = seam.calls[0]
             z = np.broadcast_to(np.asarray(c["z"], dtype=float), (n,)) if np.ndim(c["z"]) <= 1 else None
             if z is None or np.shape(c["z"]) not in ((n,), ()):
